@@ -206,7 +206,12 @@ def make_wrapper(
                 if attr == self._configurable_name:
                     entry_point = self.changes_count()
                     try:
-                        list(map(self._configurable.remove, vals))
+                        for val in vals:
+                            try:
+                                self._configurable.remove(val)
+                            except KeyError:
+                                # already disabled and pinned that way
+                                pass
                         object.__setattr__(self, "_reuse_pt", self._reuse_pt + 1)
                         return True
                     except Unchangable:
